@@ -93,7 +93,7 @@ class Prog:
         return s
 
 
-def enrich(prog, rng, max_in=3, max_inputs=10, max_choices=4, dstcap=3, allargs=False):
+def enrich(prog, rng, max_in=3, max_inputs=10, max_choices=4, dstcap=3, allargs=False, lenient=False):
     """Adds the declaration tables the TLA+ interpreter needs.  Returns None and a
     reason if the program is outside the interpreted fragment at declaration level."""
     d, N = prog.d, prog.N
@@ -133,6 +133,8 @@ def enrich(prog, rng, max_in=3, max_inputs=10, max_choices=4, dstcap=3, allargs=
             if n["k"] == "Var":
                 k, ln = prog.tykind(n["l"])
                 if k not in ("num", "status", "arr", "slice", "reader", "writer"):
+                    if lenient:      # (C10's model-free probes only need the declarations of the public methods)
+                        continue
                     return None, "local kind " + k
                 if k == "arr" and (ln > 16 or ln <= 0 or prog.tykind(prog.nd(n["l"])["r"])[0] != "num"):
                     return None, "local array shape"
@@ -317,7 +319,7 @@ def gen_driver_c(progs):
 #include <stdlib.h>
 #include <string.h>
 
-static uint8_t g_in[64], g_out[64];
+static uint8_t g_in[64], g_out[64], g_outsnap[64], g_snap[1 << 16];
 static size_t g_in_n;
 static wuffs_base__io_buffer g_src, g_dst;
 static void* g_obj = NULL;
@@ -341,7 +343,7 @@ static void hex(const uint8_t* p, size_t n) {
         T = "wuffs_%s__%s" % (pkg, sn)
         o.append("static int init_%d(void) {\n  free(g_obj);\n  g_obj = malloc(sizeof(%s));\n  memset(g_obj, 0xA5, sizeof(%s));\n"
                  "  wuffs_base__status st = %s__initialize((%s*)g_obj, sizeof(%s), WUFFS_VERSION, 0);\n  return st.repr == NULL;\n}\n" % (idx, T, T, T, T, T))
-        o.append("static void call_%d(const char* fn, int n, char** kv) {\n  %s* obj = (%s*)g_obj;\n  const char* st = NULL; long long ret = 0; int known = 0;\n" % (idx, T, T))
+        o.append("static void call_%d(const char* fn, int n, char** kv) {\n  %s* obj = (%s*)g_obj;\n  const char* st = NULL; long long ret = 0; int known = 0, ispure = 0, pchg = 0;\n" % (idx, T, T))
         for f in p["funcs"]:
             if not f["pub"]:
                 continue
@@ -355,6 +357,10 @@ static void hex(const uint8_t* p, size_t n) {
                     args.append("(%s)argval(n, kv, \"%s\")" % (CTYPE.get(prm["base"], "uint32_t"), prm["n"]))
             callx = "%s__%s(obj%s)" % (T, f["name"], "".join(", " + a for a in args))
             o.append("  if (!strcmp(fn, \"%s\")) {\n    known = 1;\n" % f["name"])
+            if f["eff"] == "":
+                # a method declared pure: the receiver's bytes and the destination buffer must come back unchanged (C10)
+                o.append("    ispure = 1;\n    memcpy(g_snap, obj, sizeof(%s) < sizeof g_snap ? sizeof(%s) : sizeof g_snap);\n"
+                         "    memcpy(g_outsnap, g_out, sizeof g_out);\n" % (T, T))
             if f["eff"] == "?" or f["rets"] == "status":
                 o.append("    wuffs_base__status s = %s;\n    st = s.repr;\n" % callx)
             elif f["rets"] == "num":
@@ -363,8 +369,10 @@ static void hex(const uint8_t* p, size_t n) {
                 o.append("    %s;\n" % callx)
             o.append("  }\n")
         o.append("  if (!known) { printf(\"R ?unknown\\n\"); return; }\n"
-                 "  printf(\"R %s|%zu|%zu|\", st ? st : \"-\", g_src.meta.ri, g_dst.meta.wi);\n"
-                 "  hex(g_out, g_dst.meta.wi);\n  printf(\"|%lld|%zu|%d\\n\", ret, g_src.meta.wi, (int)g_src.meta.closed);\n}\n")
+                 "  if (ispure) {\n    if (memcmp(g_snap, obj, sizeof(%s) < sizeof g_snap ? sizeof(%s) : sizeof g_snap)) pchg |= 1;\n"
+                 "    if (memcmp(g_outsnap, g_out, sizeof g_out)) pchg |= 2;\n  }\n"
+                 "  printf(\"R %%s|%%zu|%%zu|\", st ? st : \"-\", g_src.meta.ri, g_dst.meta.wi);\n"
+                 "  hex(g_out, g_dst.meta.wi);\n  printf(\"|%%lld|%%zu|%%d|%%d\\n\", ret, g_src.meta.wi, (int)g_src.meta.closed, ispure ? pchg : -1);\n}\n" % (T, T))
     o.append("int main(void) {\n  static char line[4096];\n  while (fgets(line, sizeof line, stdin)) {\n"
              "    char* tok[64]; int nt = 0;\n    for (char* t = strtok(line, \" \\n\"); t && nt < 64; t = strtok(NULL, \" \\n\")) tok[nt++] = t;\n"
              "    if (nt == 0) continue;\n"
@@ -398,9 +406,11 @@ def parse_reply(line):
     if not line.startswith("R "):
         return None
     parts = line[2:].rstrip("\n").split("|")
-    if len(parts) != 7:
+    if len(parts) not in (7, 8):
         return None
     st = None if parts[0] == "-" else parts[0]
     out = [] if parts[3] == "-" else [int(parts[3][i:i + 2], 16) for i in range(0, len(parts[3]), 2)]
     # swi / sclosed: the source's write index and closed flag AFTER the call (the callee must leave them as passed)
-    return {"st": st, "ri": int(parts[1]), "dwi": int(parts[2]), "out": out, "ret": int(parts[4]), "swi": int(parts[5]), "sclosed": int(parts[6])}
+    # pchg: -1 = the method is not declared pure; else bit 0 = the receiver's bytes changed, bit 1 = the destination buffer changed
+    return {"st": st, "ri": int(parts[1]), "dwi": int(parts[2]), "out": out, "ret": int(parts[4]), "swi": int(parts[5]), "sclosed": int(parts[6]),
+            "pchg": int(parts[7]) if len(parts) == 8 else -1}
